@@ -3041,6 +3041,11 @@ impl<'a> QueryServerWriteTransaction<'a> {
         // Write the cid to the db. If this fails, we can't assume replication
         // will be stable, so return if it fails.
         be_txn.set_db_ts_max(cid.ts)?;
+
+        // Commit the database first. In-memory state must only be published once
+        // storage has committed, else a failed commit would leave its changes visible.
+        be_txn.commit()?;
+
         cid.commit();
 
         // We don't care if this passes/fails, committing this is fine.
@@ -3061,7 +3066,6 @@ impl<'a> QueryServerWriteTransaction<'a> {
             .map(|_| dyngroup_cache.commit())
             .and_then(|_| key_providers.commit())
             .and_then(|_| accesscontrols.commit())
-            .and_then(|_| be_txn.commit())
     }
 
     pub(crate) fn get_txn_cid(&self) -> &Cid {
